@@ -215,6 +215,9 @@ def parse (elementstr : Bytes) : R Elem :=
 /-- `HeaderElement.split` -/
 def split (fieldvalue : Bytes) : List Bytes := (splitOutsideQuotes 0x2C fieldvalue).map pyStrip
 
+/-- `HeaderElement.join` -/
+def join (values : List Bytes) : Bytes := joinWith [0x2C, 0x20] values
+
 /-! ### compose -/
 
 def escapeQuoted (v : Bytes) : Bytes :=
